@@ -68,6 +68,35 @@ impl Gen for Key {
     }
 }
 
+impl Gen for std::net::Ipv4Addr {
+    fn gen(s: &mut Src) -> Self {
+        std::net::Ipv4Addr::from(<[u8; 4]>::gen(s))
+    }
+    fn extremes() -> Vec<Self> {
+        vec![std::net::Ipv4Addr::BROADCAST, std::net::Ipv4Addr::UNSPECIFIED]
+    }
+}
+impl Gen for std::net::Ipv6Addr {
+    fn gen(s: &mut Src) -> Self {
+        std::net::Ipv6Addr::from(<[u8; 16]>::gen(s))
+    }
+    fn extremes() -> Vec<Self> {
+        vec![std::net::Ipv6Addr::from([0xFF; 16]), std::net::Ipv6Addr::UNSPECIFIED]
+    }
+}
+impl Gen for std::net::SocketAddr {
+    fn gen(s: &mut Src) -> Self {
+        if s.byte() % 2 == 0 {
+            std::net::SocketAddr::new(std::net::IpAddr::V4(Gen::gen(s)), Gen::gen(s))
+        } else {
+            std::net::SocketAddr::new(std::net::IpAddr::V6(Gen::gen(s)), Gen::gen(s))
+        }
+    }
+    fn extremes() -> Vec<Self> {
+        vec![std::net::SocketAddr::new(std::net::IpAddr::V6(std::net::Ipv6Addr::from([0xFF; 16])), u16::MAX)]
+    }
+}
+
 impl Gen for PathBuf {
     fn gen(s: &mut Src) -> Self {
         PathBuf::from(String::gen(s))
@@ -479,6 +508,58 @@ impl<const N: usize> Gen for ConstGen<N> {
     }
 }
 
+/// array of tuples in a derived struct (the derive must size it as (A + B) * N)
+#[derive(Serialize, Deserialize, Schema, MaxSize, Debug, Clone, PartialEq)]
+pub struct Calibration {
+    pub id: u8,
+    pub points: [(u16, u32); 4],
+    pub pairs: [(i64, char, bool); 2],
+}
+impl Gen for Calibration {
+    fn gen(s: &mut Src) -> Self {
+        Calibration { id: Gen::gen(s), points: Gen::gen(s), pairs: Gen::gen(s) }
+    }
+    fn extremes() -> Vec<Self> {
+        vec![Calibration { id: 255, points: [(u16::MAX, u32::MAX); 4], pairs: [(i64::MIN, '\u{10FFFF}', true); 2] }]
+    }
+}
+
+/// one unnamed field written with a trailing comma (what rustfmt produces for long field lists)
+#[derive(Serialize, Deserialize, Schema, MaxSize, Debug, Clone, PartialEq)]
+#[rustfmt::skip]
+pub struct TrailingCommaS(
+    pub u32,
+);
+#[derive(Serialize, Deserialize, Schema, MaxSize, Debug, Clone, PartialEq)]
+#[rustfmt::skip]
+pub enum TrailingCommaE {
+    A(
+        u16,
+    ),
+    B(u8, u8,),
+    C { x: i8, },
+}
+impl Gen for TrailingCommaS {
+    fn gen(s: &mut Src) -> Self {
+        TrailingCommaS(Gen::gen(s))
+    }
+    fn extremes() -> Vec<Self> {
+        vec![TrailingCommaS(u32::MAX)]
+    }
+}
+impl Gen for TrailingCommaE {
+    fn gen(s: &mut Src) -> Self {
+        match s.below(3) {
+            0 => TrailingCommaE::A(Gen::gen(s)),
+            1 => TrailingCommaE::B(Gen::gen(s), Gen::gen(s)),
+            _ => TrailingCommaE::C { x: Gen::gen(s) },
+        }
+    }
+    fn extremes() -> Vec<Self> {
+        vec![TrailingCommaE::A(u16::MAX), TrailingCommaE::B(255, 255), TrailingCommaE::C { x: -1 }]
+    }
+}
+
 macro_rules! big_enum {
     ($name:ident, $n:expr, [$($v:ident),*]) => {
         #[derive(Serialize, Deserialize, Schema, MaxSize, Debug, Clone, Copy, PartialEq)]
@@ -673,6 +754,20 @@ pub fn types() -> Vec<CorpusType> {
     v.push(base::<[OneVariant; 3]>("[OneVariant; 3]").schema::<[OneVariant; 3]>().max::<[OneVariant; 3]>(true).de::<[OneVariant; 3]>().json());
     v.push(base::<heapless07::Vec<UnitS, 3>>("heapless07::Vec<UnitS,3>").schema::<heapless07::Vec<UnitS, 3>>().de::<heapless07::Vec<UnitS, 3>>());
     full!(v, WideEnum, bounded);
+    full!(v, Calibration, bounded);
+    full!(v, TrailingCommaS, bounded);
+    full!(v, TrailingCommaE, bounded);
+    full!(v, Result<u8, u64>, bounded);
+    full!(v, Result<(), u32>, bounded);
+    full!(v, Result<bool, (u64, i128)>, bounded);
+    // tuples whose first and last element are the same type (one shared SCHEMA constant) around a different one
+    full!(v, (u8, u16, u8), tight);
+    full!(v, (f32, String, f32), schema);
+    full!(v, (Option<u8>, bool, char, Option<u8>), tight);
+    // types that choose their representation by is_human_readable()
+    v.push(base::<std::net::Ipv4Addr>("Ipv4Addr").de::<std::net::Ipv4Addr>());
+    v.push(base::<std::net::Ipv6Addr>("Ipv6Addr").de::<std::net::Ipv6Addr>());
+    v.push(base::<std::net::SocketAddr>("SocketAddr").de::<std::net::SocketAddr>());
     v.push(base::<BorrowedS<'static>>("BorrowedS<'a>").schema::<BorrowedS<'static>>().json());
     full!(v, ConstGen<0>, bounded);
     full!(v, ConstGen<3>, bounded);
